@@ -22,6 +22,12 @@ def base_seed():
         return 1
 
 
+def findings_dir(prop):
+    d = os.path.join(os.environ.get("VERIF_FINDINGS_DIR", os.path.join(VERIF, "findings")), prop)
+    os.makedirs(d, exist_ok=True)
+    return d
+
+
 def load_known_findings():
     p = os.path.join(VERIF, "known_findings.json")
     if not os.path.exists(p):
@@ -49,7 +55,8 @@ def match_known(prop, cls, msg, extra=None):
 
 
 def write_evidence(prop, tier, seed, coverage, wall_s, violations, assumptions, level="exploration"):
-    os.makedirs(os.path.join(VERIF, "evidence"), exist_ok=True)
+    evdir = os.environ.get("VERIF_EVIDENCE_DIR", os.path.join(VERIF, "evidence"))  # sensitivity runs on mutated trees write elsewhere
+    os.makedirs(evdir, exist_ok=True)
     ev = {
         "property_id": prop,
         "tier": tier,
@@ -60,7 +67,7 @@ def write_evidence(prop, tier, seed, coverage, wall_s, violations, assumptions, 
         "wall_s": round(wall_s, 2),
         "violations": violations,
     }
-    p = os.path.join(VERIF, "evidence", prop + ".json")
+    p = os.path.join(evdir, prop + ".json")
     tmp = p + ".tmp.%d" % os.getpid()
     with open(tmp, "w") as f:
         json.dump(ev, f, indent=1, sort_keys=True)
